@@ -22,6 +22,7 @@ package c21
 
 import (
 	"bytes"
+	"context"
 	"fmt"
 	"hash/fnv"
 	"os"
@@ -35,6 +36,7 @@ import (
 
 	ouroboros "github.com/blinklabs-io/gouroboros"
 	"github.com/blinklabs-io/gouroboros/ledger"
+	"github.com/blinklabs-io/gouroboros/pipeline"
 	"github.com/blinklabs-io/gouroboros/protocol"
 	"github.com/blinklabs-io/gouroboros/protocol/chainsync"
 	pcommon "github.com/blinklabs-io/gouroboros/protocol/common"
@@ -48,7 +50,7 @@ func init() {
 	core.Register(&core.Monitor{
 		ID:            "C21",
 		Race:          true,
-		Rule:          "server histories from the PRNG: length 50..2000 messages (75% 50..200, 20% 200..600, 5% 600..2000, thorough 5% 2000..5000; node-to-client histories capped at 160 / thorough 400 because every block is decoded and validated), each message RollForward (corpus block: NtN header / NtC block), RollBackward to an earlier point of the served chain (12%), optionally preceded by AwaitReply (10%), every message with its own tip; x mode {NtN, NtC} x PipelineLimit {0,1,2,10,50,100} x callback kind {decoded, raw} x callback delays {none, light, heavy} x perturbation level {0,1,2} x server reply policy {eager, burst, random, lazy} with random segmentation x stop mode {after the whole history (server quiescent), at callback k begin, at callback k end}. A case is non-trivial when the client delivered at least 20 callbacks that were compared with the server log and Stop() was judged; distinct by (mode, limit, history hash, stop mode, stop index)",
+		Rule:          "server histories from the PRNG: length 50..2000 messages (75% 50..200, 20% 200..600, 5% 600..2000, thorough 5% 2000..5000; node-to-client histories capped at 160 / thorough 400 because every block is decoded and validated), each message RollForward (corpus block: NtN header / NtC block), RollBackward to an earlier point of the served chain (12%), optionally preceded by AwaitReply (10%), every message with its own tip; x mode {NtN, NtC} x PipelineLimit {0,1,2,10,50,100} x callback kind {decoded, raw; every third node-to-client history with a pipeline.BlockPipeline (2..4 decode workers, perturbed through pipeline.VerifSetPoint) whose ApplyFunc is the roll-forward recorder} x callback delays {none, light, heavy} x perturbation level {0,1,2} x server reply policy {eager, burst, random, lazy} with random segmentation x stop mode {after the whole history (server quiescent), at callback k begin, at callback k end}. A case is non-trivial when the client delivered at least 20 callbacks that were compared with the server log and Stop() was judged; distinct by (mode, limit, history hash, stop mode, stop index)",
 		MinNontrivial: 60,
 		RaceAnchors:   []string{"chainsync.(*Client).syncLoop", "chainsync.(*Client).Sync", "chainsync.(*Client).handleRoll"},
 		Assumptions: []string{
@@ -83,6 +85,7 @@ type caseSpec struct {
 	NtN      bool
 	Limit    int
 	Raw      bool
+	Pipe     bool // node-to-client with a pipeline.BlockPipeline: roll-forwards arrive through its ApplyFunc
 	CbDelay  int
 	Perturb  int
 	Policy   int // 0 eager, 1 burst, 2 random, 3 lazy
@@ -108,7 +111,15 @@ func genCase(c *core.Ctx, i int, r *core.Rand, blocks []*rig.Block, ebb int) *ca
 	cs.NtN = i%2 == 0
 	cs.Limit = limits[(i/2)%len(limits)]
 	cs.Raw = r.Chance(1, 4)
-	cs.CbDelay = r.Intn(3)
+	if !cs.NtN && (i/2)%3 == 1 { // every third node-to-client history runs with a block pipeline
+		cs.Pipe, cs.Raw = true, false
+		if cs.CbDelay = r.Intn(3); cs.CbDelay == 0 && r.Bool() {
+			cs.CbDelay = 2
+		}
+	}
+	if !cs.Pipe {
+		cs.CbDelay = r.Intn(3)
+	}
 	cs.Perturb = r.Intn(3)
 	cs.Policy = r.Intn(4)
 	var n int
@@ -227,6 +238,7 @@ type runState struct {
 
 	// client side request accounting (trace sink)
 	enqReq      atomic.Int64
+	delivered   atomic.Int64 // RollForward / RollBackward messages handed to the client's handler
 	maxClientOu atomic.Int64
 	sig         uint64
 	sigMu       sync.Mutex
@@ -289,7 +301,7 @@ func (st *runState) onCallback(o obs) {
 	st.mu.Lock()
 	i := len(st.log)
 	st.log = append(st.log, o)
-	if after {
+	if after && !(st.cs.Pipe && !o.Back) {
 		st.afterStop++
 		st.fail("after-stop", map[string]any{"index": i, "callback": o.String()})
 	}
@@ -595,7 +607,7 @@ func runCase(c *core.Ctx, cs *caseSpec, blocks []*rig.Block, wrappedNtN, wrapped
 		bound = 1
 	}
 	wit := func() map[string]any {
-		return map[string]any{"case": cs.Idx, "mode": cs.mode(), "pipeline_limit": cs.Limit, "raw_callback": cs.Raw, "messages": cs.Messages,
+		return map[string]any{"case": cs.Idx, "mode": cs.mode(), "pipeline_limit": cs.Limit, "raw_callback": cs.Raw, "block_pipeline": cs.Pipe, "messages": cs.Messages,
 			"stop_mode": cs.StopMode, "stop_at": cs.StopAt, "server_policy": cs.Policy, "perturbation": cs.Perturb, "callback_delay": cs.CbDelay,
 			"history_head": historyHead(cs, blocks, 12)}
 	}
@@ -640,6 +652,29 @@ func runCase(c *core.Ctx, cs *caseSpec, blocks []*rig.Block, wrappedNtN, wrapped
 	} else {
 		opts = append(opts, chainsync.WithRollForwardFunc(fwd))
 	}
+	var pipe *pipeline.BlockPipeline
+	if cs.Pipe {
+		pipe = pipeline.NewBlockPipeline(
+			pipeline.WithDecodeWorkers(2+int(cs.Seed%3)),
+			pipeline.WithApplyFunc(func(item *pipeline.BlockItem) error {
+				o := obs{Type: item.BlockType(), Tip: tipOf(item.Tip()), Cbor: item.RawCbor()}
+				if b := item.Block(); b != nil {
+					o.Hash = b.Hash().Bytes()
+				} else {
+					o.Bad = fmt.Sprintf("pipeline applied an item without a decoded block (decode error: %v)", item.DecodeError())
+				}
+				st.onCallback(o)
+				return nil
+			}),
+		)
+		if err := pipe.Start(context.Background()); err != nil {
+			c.Eval()
+			c.Inconclusive("pipeline start: " + err.Error())
+			return
+		}
+		defer pipe.Stop()
+		opts = append(opts, chainsync.WithPipeline(pipe))
+	}
 	cfg := chainsync.NewConfig(opts...)
 
 	c.Journal("C21 case %d %s limit=%d msgs=%d stop=%s@%d policy=%d perturb=%d", cs.Idx, cs.mode(), cs.Limit, cs.Messages, cs.StopMode, cs.StopAt, cs.Policy, cs.Perturb)
@@ -660,9 +695,12 @@ func runCase(c *core.Ctx, cs *caseSpec, blocks []*rig.Block, wrappedNtN, wrapped
 	rig.Register(proto, &rig.Hook{
 		OnEvent: func(ev protocol.VerifEvent) {
 			st.events.Add(1)
+			if ev.Kind == "deliver" && (ev.MsgType == chainsync.MessageTypeRollForward || ev.MsgType == chainsync.MessageTypeRollBackward) {
+				st.delivered.Add(1)
+			}
 			if ev.Kind == "enq" && ev.MsgType == chainsync.MessageTypeRequestNext {
 				n := st.enqReq.Add(1)
-				ou := n - st.cbCount.Load()
+				ou := n - st.delivered.Load()
 				for {
 					m := st.maxClientOu.Load()
 					if ou <= m || st.maxClientOu.CompareAndSwap(m, ou) {
@@ -826,6 +864,10 @@ loop:
 	c.Count("perturbation_hits", int(pert.Hits.Load()))
 	c.Count("trace_events", int(st.events.Load()))
 	c.Count("mode_"+cs.mode(), 1)
+	if cs.Pipe {
+		c.Count("with_block_pipeline", 1)
+		c.Count("callbacks_through_pipeline_apply", cbs-nb)
+	}
 	c.Count(fmt.Sprintf("limit_%d", cs.Limit), 1)
 	c.Count("stop_mode_"+cs.StopMode, 1)
 	tot.mu.Lock()
@@ -868,7 +910,7 @@ loop:
 	for _, m := range []struct {
 		name string
 		v    int
-	}{{"on the wire (requests received - replies written, at a server receive)", sl.maxOut}, {"at the client (RequestNext enqueued - replies handed to the callbacks)", int(st.maxClientOu.Load())}} {
+	}{{"on the wire (requests received - replies written, at a server receive)", sl.maxOut}, {"at the client (RequestNext enqueued - replies handed to the message handler)", int(st.maxClientOu.Load())}} {
 		if m.v > bound {
 			w["max_outstanding"] = m.v
 			key := fmt.Sprintf("C21:outstanding:limit=%d", cs.Limit)
@@ -924,7 +966,7 @@ loop:
 		judged = false
 	}
 	if judged && st.mismatch == "" && cbs >= 20 {
-		c.Distinct(cs.mode(), cs.Limit, cs.Hash, cs.StopMode, cs.StopAt)
+		c.Distinct(cs.mode(), cs.Pipe, cs.Limit, cs.Hash, cs.StopMode, cs.StopAt)
 	}
 }
 
@@ -1037,6 +1079,16 @@ func run(c *core.Ctx) {
 	}
 	rig.InstallHooks()
 	defer rig.RemoveHooks()
+	var pctr atomic.Uint64
+	pipeline.VerifSetPoint(func(string, *pipeline.BlockItem) {
+		switch h := pctr.Add(1) * 0x9e3779b97f4a7c15 >> 40; {
+		case h%32 == 0:
+			time.Sleep(time.Duration(50+h%400) * time.Microsecond)
+		case h%4 == 0:
+			runtime.Gosched()
+		}
+	})
+	defer pipeline.VerifSetPoint(nil)
 	g0 := runtime.NumGoroutine()
 	n := c.N(108, 3000)
 	cases := make([]*caseSpec, n)
